@@ -459,11 +459,11 @@ CHECKS = {
 # deciding method (appended to the technique strings above)
 _ADDED = {
     "C01": "canonical value terms for the per-net core range and the "
-           "default-route predicates",
+           "default-route predicates; repair condition and tree-per-net rules shared with C03",
     "C02": "canonical value terms by cases for the capacity test, the C "
            "kernel's inputs and the fixed-vertex merge",
     "C03": "canonical value terms and facts (through helpers) for A*, the "
-           "disconnecting copy, leaf routes and tree-node look-ups",
+           "disconnecting copy, leaf routes and tree-node look-ups; facts between tree generation and repair; object identity of per-net trees",
     "C04": "canonical value terms: list-building abstraction of "
            "_Merge.apply (cursor / append / segment forms), refine order by "
            "cases, per-round rescan, unit propagation over path facts, "
@@ -473,43 +473,43 @@ _ADDED = {
            "path-sensitive state exploration (PATHS) of the retry loop with "
            "helper summaries: on every path to the commit the proposal was "
            "scanned completely against both reservation sources with no "
-           "overlap and bounded by the chip's own capacity",
+           "overlap and bounded by the chip's own capacity; constant folding of the busy-state table (shared with C14)",
     "C06": "canonical value terms with nested-helper views for the burst's "
            "table, queue, keys and deadlines",
     "C07": "canonical value terms for block sizes, addresses and the link "
-           "windows",
+           "windows; residues by mask in the must-analysis 'multiple of 4'; C06's once-per-reply rule",
     "C08": "canonical value terms by cases (fixed / floating position), "
            "path-sensitive exploration (PATHS) of the children scans, "
            "allocation-site analysis of the per-child requirement dict, "
            "acceptance bound start + length <= length by cases (path facts "
-           "or range() scan element)",
+           "or range() scan element); must-pass-through of the occupancy scan; sibling agreement of the two tree walks",
     "C09": "canonical value terms for the wait flag, writers and the "
            "verification walk",
     "C10": "canonical value terms for table records, arrival directions and "
            "the loader's words (attributes stored on some paths keep their "
-           "entry value on the others)",
+           "entry value on the others); constructor forwarding of RoutingTableEntry; record keys on terms",
     "C11": "walk evaluated by cases on value terms (recorded position per "
            "dimension, sign and wrap case); polynomial normal form of the "
-           "signed torus offsets",
+           "signed torus offsets; MEMO; Fourier-Motzkin feasibility of candidate orderings",
     "C12": "canonical value terms per hierarchy level; unguarded insertion "
-           "of every target",
+           "of every target; grouping test on path facts",
     "C13": "proofs on the two halves of the input space (position inside / "
-           "before the view)",
+           "before the view); polynomial identity end - start = size of the allocated view",
     "C14": "canonical value terms for decoders, derived sets, range merging "
-           "by cases, running maxima, version text",
+           "by cases, running maxima, version text; constant folding of the Perl pack-code table against a trusted reference; busy-state table",
     "C15": "canonical value terms by cases (8 argument-presence cases) with "
            "literal-loop unrolling and list/join part extraction",
     "C16": "canonical value terms for the clamp and the array pipeline "
-           "(clip or minimum/maximum forms)",
-    "C17": "value-class query methods checked for instance writes",
+           "(clip or minimum/maximum forms); MEMO with folding over the 128 formats",
+    "C17": "value-class query methods checked for instance writes; MEMO (sound / stale / mutable / generator); instances adopting module-level mutables",
     "C18": "dictionary layering (ordered overlay of defaults / context / "
            "explicit arguments whatever the spelling), context ownership of "
-           "its arguments, probe-over-new-connection ordering",
+           "its arguments, probe-over-new-connection ordering; candidate-key loops; C15's header layout rules re-run; command words and records on terms",
     "C19": "canonical value terms for the factor search and the Ethernet "
-           "coordinates",
+           "coordinates; round-up spellings proved equal (mod/floor-div identity); width/height maxima on terms",
     "C20": "canonical value terms for option application, size limit, "
            "splice and byte swap (word-wise or bulk); must-pass-through of "
-           "the per-field store in Struct.pack",
+           "the per-field store in Struct.pack; object identity of the returned struct table; keyword forwarding of MachineController.boot",
 }
 for _k, _v in _ADDED.items():
     if _k in CHECKS and _v not in CHECKS[_k]["technique"]:
